@@ -7,7 +7,8 @@ From OM Require Import Gen.GenReturns.
 Definition fresh_origin (o : origin) : Prop := o = Fresh \/ o = Composite.
 Lemma value_methods_return_fresh : Forall (Forall fresh_origin) value_returning_methods.
 Proof. unfold value_returning_methods, fresh_origin. repeat (apply Forall_cons || apply Forall_nil); cbv; repeat (apply Forall_cons || apply Forall_nil); auto. Qed.
-Lemma in_place_solver_is_the_only_exception : in_place_solvers = [[SharedWithArgument]].
-Proof. reflexivity. Qed.
+Lemma in_place_solver_is_the_only_exception :
+  length in_place_solvers = 1 /\ Forall (Forall (fun o => o = SharedWithArgument)) in_place_solvers.
+Proof. split; [reflexivity|]. unfold in_place_solvers. repeat (apply Forall_cons || apply Forall_nil); cbv; repeat (apply Forall_cons || apply Forall_nil); auto. Qed.
 Lemma many_methods_covered : 40 <= length value_returning_methods.
 Proof. apply PeanoNat.Nat.leb_le. vm_compute. reflexivity. Qed.
